@@ -547,6 +547,7 @@ fn run_step(st: &mut State, step: &Value) -> Value {
                 let gd = GradientDescent::new(lr);
                 gd.update(taken.iter_mut().map(|(_, a)| a).collect());
             });
+            ev.insert("newp".into(), Value::Array(taken.iter().map(|(_, a)| tensor_out(a)).collect()));
             for (h, a) in taken {
                 st.hs.insert(h, a);
             }
